@@ -87,7 +87,9 @@ def gen_pair(rng, tier, seed, index=None):
     # who starts: the central; the peripheral through a Security Request; or the peripheral itself sending the Pairing Request
     # (the SMP initiator is then the link-layer peripheral - bumble supports it, with a warning)
     return {'i': a, 'r': b, 'starter': rng.choice(['central', 'central', 'central', 'peripheral_request', 'peripheral_request', 'peripheral_direct']), 'negative': neg, 'fault': fault,
-            'profile': rng.choice(PROFILE_NAMES), 'reconnect': rng.random() < 0.7, 'repair': rng.random() < 0.2}
+            'profile': rng.choice(PROFILE_NAMES), 'reconnect': rng.random() < 0.7, 'repair': rng.random() < 0.2,
+            # the bond is kept in the persistent JSON store (on the simulated file system) instead of the in-memory one
+            'store': rng.choice(['memory', 'memory', 'json'])}
 
 
 SMP_CODE = {'confirm': 0x03, 'random': 0x04, 'public_key': 0x0C, 'dhkey_check': 0x0D}
@@ -97,13 +99,24 @@ def run_pair(case):
     from bumble import hci
     from bumble.keys import MemoryKeyStore
 
+    undo_fs = []
     sim = Sim(case['seed'], case.get('profile', 'zero'), slow_node='N1')
     try:
         world = World(sim, 2)
         world.power_on()
         d0, d1 = world[0].device, world[1].device
-        d0.keystore = MemoryKeyStore()
-        d1.keystore = MemoryKeyStore()
+        if case.get('store') == 'json':
+            from bsim import simfs
+            from bumble.keys import JsonKeyStore
+            fs = simfs.SimFS(8192)
+            fs.mkdir('/data', True, True)
+            undo_fs.append(simfs.install(fs))
+            d0.keystore = JsonKeyStore('N0', '/data/n0.json')
+            d1.keystore = JsonKeyStore('N1', '/data/n1.json')
+            sim.probe('json_key_stores')
+        else:
+            d0.keystore = MemoryKeyStore()
+            d1.keystore = MemoryKeyStore()
         A, B = case['i'], case['r']
         log, shared = [], {}
         pairing.install(sim, d0, 'I', A['io'], A['sc'], A['mitm'], A['bonding'], A['answers'], log, shared, A['init_dist'], A['resp_dist'])
@@ -335,6 +348,8 @@ def run_pair(case):
         sim.trace.shape(A['io'], B['io'], sc, mitm, A['init_dist'] & B['init_dist'], A['resp_dist'] & B['resp_dist'], case['starter'], situation, 'ok')
         return result(sim, nontrivial=model != JW or situation != 'clean')
     finally:
+        for u in undo_fs:
+            u()
         sim.close()
 
 
